@@ -17,6 +17,10 @@ class LegError(AnalysisError):
     pass
 
 
+class LegUnknown(LegError):
+    """a construct the leg domain has no meaning for: the analysis cannot decide (exit 2), it is not a finding"""
+
+
 class Leg:
     __slots__ = ('occ', 'port', 'dim', 'charge', 'tag')
 
